@@ -496,6 +496,16 @@ def corpus_cases():
     out = [dict(base, rows=rows, mets=[{"type": "cum", "kind": "running", "agg": "sum"}, {"type": "cum", "kind": "grain", "grain": "month", "agg": None}, {"type": "tc", "ctype": "dod", "calc": "difference"}])]
     # the cumulative base referenced by its unqualified name while the measure's own sql is a different column name
     out.append(dict(base, unqualified=True, rows=rows, mets=[{"type": "cum", "kind": "running", "agg": "sum"}]))
+    # grain-to-date periods across a year end: the week of Monday 2024-12-30 (and the ISO week 53 of 2020) holds days of two calendar years, December ends a month, a quarter and a year
+    for (y, mth, dd, ndays) in ((2024, 12, 23, 21), (2020, 12, 21, 24), (2025, 12, 26, 12)):
+        d0 = dfc(y, mth, dd)
+        rows2, rid = [], 0
+        for i in range(ndays):
+            for cat in ("a", "b"):
+                rid += 1
+                rows2.append((rid, (d0 + i) * UD + 7 * 3600 * 10 ** 6, [cat], (rid * 7) % 11 + 1, 1))
+        out.append(dict(base, rows=rows2, mets=[{"type": "cum", "kind": "grain", "grain": "week", "agg": None}, {"type": "cum", "kind": "grain", "grain": "year", "agg": "sum"}, {"type": "cum", "kind": "grain", "grain": "quarter", "agg": None}]))
+        out.append(dict(base, gran="week", ndims=0, rows=[(r[0], r[1], [], r[3], r[4]) for r in rows2], mets=[{"type": "cum", "kind": "grain", "grain": "month", "agg": None}, {"type": "cum", "kind": "grain", "grain": "week", "agg": "sum"}]))
     return out
 
 
